@@ -9,9 +9,19 @@ import vlib
 from props import recfam
 
 
-def site_of(func):
-    """code-site class of the innermost fan2go frame of one side of a race report"""
+def site_of(func, chain=()):
+    """code-site class of the innermost fan2go frame of one side of a race report (for the shared PID arithmetic in
+    internal/util the next fan2go frame decides whose state it is: a PID curve's or a fan's own control loop's)"""
     f = func.split('fan2go/internal/')[-1]
+    if f.startswith('util.(*PidLoop)'):
+        for g in chain[1:]:
+            g = g.split('fan2go/internal/')[-1]
+            if g.startswith('control_loop.'):
+                return 'CtlLoop'
+            if g.startswith('curves.'):
+                return 'PidLoop'
+    if f.startswith('control_loop.'):
+        return 'CtlLoop'
     if f.startswith('api.'):
         return 'Api'
     if f.startswith('sensors.'):
@@ -44,9 +54,10 @@ def parse_reports(text):
             funcs = [m.group(1) for m in re.finditer(r'^  ([^\s(]+(?:\([^)]*\))?[^\s(]*)\(', b, re.M)]
             inner = [f for f in funcs if 'markusressel/fan2go/internal' in f]
             kind = b.split(' at ')[0]
-            sides.append((kind, inner[0] if inner else (funcs[0] if funcs else '?')))
+            sides.append((kind, inner[0] if inner else (funcs[0] if funcs else '?'), inner))
         if len(sides) >= 2:
-            out.append(dict(a_kind=sides[0][0], a_func=sides[0][1], b_kind=sides[1][0], b_func=sides[1][1], text=rep[:4000]))
+            out.append(dict(a_kind=sides[0][0], a_func=sides[0][1], b_kind=sides[1][0], b_func=sides[1][1], a_chain=sides[0][2], b_chain=sides[1][2],
+                            text=rep[:4000]))
     return out
 
 
@@ -113,7 +124,7 @@ def check(run):
     pairs = {}
     with open(recfile, 'w') as f:
         for r in reports:
-            a, b = site_of(r['a_func']), site_of(r['b_func'])
+            a, b = site_of(r['a_func'], r.get('a_chain', ())), site_of(r['b_func'], r.get('b_chain', ()))
             key = '~'.join(sorted([a, b]))
             pairs.setdefault(key, []).append(r)
             f.write(json.dumps(dict(ev='Race', a=a, b=b, a_func=r['a_func'], b_func=r['b_func'], a_kind=r['a_kind'], b_kind=r['b_kind'],
